@@ -7,6 +7,7 @@ import Mahotas.Proofs.PyBodyTiesC02
 import Mahotas.Proofs.PyBodyTiesC06
 import Mahotas.Proofs.PyBodyTiesC14
 import Mahotas.Proofs.PyBodyTiesC16
+import Mahotas.Proofs.PyBodyTiesC16b
 import Mahotas.Proofs.PyBodyTiesC17
 import Mahotas.Proofs.PyBodyTiesC16Rc
 import Mahotas.Proofs.PyBodyTiesC20
